@@ -91,7 +91,8 @@ Inductive event :=
 | StopHunt (a : addr)
 | Close
 | Wake (i : nat)
-| RxRA (src_ip eth_src p : bytes) (host_known : bool).
+| RxRA (src_ip eth_src p : bytes) (host_known : bool)
+| RxOther (p : bytes).      (* any other ICMPv6 message through ProcessPacket: touches none of this state *)
 
 Inductive out :=
 | OStage (s : stage) (e : option err)
@@ -194,6 +195,7 @@ Definition step (c : config) (st : state) (e : event) : state * out :=
   | Close => close st
   | Wake i => wake c st i
   | RxRA s m p hk => rx_ra st s m p hk
+  | RxOther _ => (st, ONone)
   end.
 
 (* run a history, collecting (state before the event, event, output) *)
